@@ -68,6 +68,7 @@ type rdField struct {
 	number           string
 	oneof            string
 	mapKey, mapVal   string
+	opts             []rdLeaf
 }
 type rdMessage struct {
 	name   string
@@ -75,15 +76,26 @@ type rdMessage struct {
 	nested []*rdMessage
 	enums  []*rdEnum
 	oneofs []string
+	opts   []rdLeaf
 }
 type rdEnum struct {
 	name   string
 	values [][2]string
+	opts   []rdLeaf
 }
-type rdMethod struct{ name, in, out string }
+type rdMethod struct {
+	name, in, out string
+	opts          []rdLeaf
+}
+
+// rdLeaf: one scalar of an option value, addressed by its path from the option
+// name: `(pkg.ext).a.b = {c: [7, 8]}` gives "(pkg.ext)/a/b/c/0" = 7 and
+// ".../c/1" = 8; an empty message or list is a leaf "{}" / "[]".
+type rdLeaf struct{ path, value string }
 type rdService struct {
 	name    string
 	methods []rdMethod
+	opts    []rdLeaf
 }
 type rdFile struct {
 	syntax, pkg string
@@ -117,6 +129,98 @@ func (p *rdParser) expect(s string) {
 	}
 }
 
+// optName: `(full.name)` or `(full.name).sub.path`, or a plain option name
+func (p *rdParser) optName() string {
+	if p.peek() != "(" {
+		return p.next()
+	}
+	p.next()
+	path := "(" + p.next() + ")"
+	p.expect(")")
+	if w := p.peek(); len(w) > 1 && w[0] == '.' {
+		p.next()
+		b := []byte(w)
+		for i := range b {
+			if b[i] == '.' {
+				b[i] = '/'
+			}
+		}
+		path += string(b)
+	}
+	return path
+}
+
+// optValue: a scalar, a `{ key: value ... }` message literal or a `[v, v]` list
+// in protobuf text format, flattened into leaves under path
+func (p *rdParser) optValue(path string, out *[]rdLeaf) {
+	switch p.peek() {
+	case "{":
+		p.next()
+		n := 0
+		for p.ok && p.peek() != "}" && p.peek() != "" {
+			key := p.next()
+			p.expect(":")
+			p.optValue(path+"/"+key, out)
+			n++
+		}
+		p.expect("}")
+		if n == 0 {
+			*out = append(*out, rdLeaf{path, "{}"})
+		}
+	case "[":
+		p.next()
+		i := 0
+		for p.ok && p.peek() != "]" && p.peek() != "" {
+			p.optValue(path+"/"+rdItoa(int32(i)), out)
+			i++
+			if p.peek() != "," {
+				break
+			}
+			p.next()
+			if p.peek() == "]" { // no trailing comma in the text format
+				p.ok = false
+			}
+		}
+		p.expect("]")
+		if i == 0 {
+			*out = append(*out, rdLeaf{path, "[]"})
+		}
+	case "", "}", "]", ",", ";", ":", "=":
+		p.ok = false
+	default:
+		v := p.next()
+		if v == "-" {
+			v += p.next()
+		}
+		*out = append(*out, rdLeaf{path, v})
+	}
+}
+
+// bracketOptions: `[name = value, name = value]` after a field or enum value
+func (p *rdParser) bracketOptions() []rdLeaf {
+	out := []rdLeaf{}
+	p.expect("[")
+	for p.ok {
+		name := p.optName()
+		p.expect("=")
+		p.optValue(name, &out)
+		if p.peek() != "," {
+			break
+		}
+		p.next()
+	}
+	p.expect("]")
+	return out
+}
+
+// optionStatement: `option name = value;` (the word option already consumed)
+func (p *rdParser) optionStatement(out *[]rdLeaf) {
+	name := p.optName()
+	p.expect("=")
+	p.optValue(name, out)
+	p.expect(";")
+}
+
 func (p *rdParser) field(oneof string) *rdField {
 	f := &rdField{oneof: oneof}
 	w := p.next()
@@ -137,11 +241,8 @@ func (p *rdParser) field(oneof string) *rdField {
 	f.name = p.next()
 	p.expect("=")
 	f.number = p.next()
-	if p.peek() == "[" { // options: skipped
-		for p.ok && p.peek() != "]" && p.peek() != "" {
-			p.next()
-		}
-		p.expect("]")
+	if p.peek() == "[" {
+		f.opts = p.bracketOptions()
 	}
 	p.expect(";")
 	return f
@@ -152,8 +253,17 @@ func (p *rdParser) enum() *rdEnum {
 	p.expect("{")
 	for p.ok && p.peek() != "}" && p.peek() != "" {
 		n := p.next()
+		if n == "option" {
+			p.optionStatement(&e.opts)
+			continue
+		}
 		p.expect("=")
 		v := p.next()
+		if p.peek() == "[" {
+			for _, l := range p.bracketOptions() {
+				e.opts = append(e.opts, rdLeaf{n + ":" + l.path, l.value})
+			}
+		}
 		p.expect(";")
 		e.values = append(e.values, [2]string{n, v})
 	}
@@ -172,6 +282,9 @@ func (p *rdParser) message() *rdMessage {
 		case "enum":
 			p.next()
 			m.enums = append(m.enums, p.enum())
+		case "option":
+			p.next()
+			p.optionStatement(&m.opts)
 		case "oneof":
 			p.next()
 			on := p.next()
@@ -223,8 +336,11 @@ func rdParse(text []byte) (*rdFile, bool) {
 		case "service":
 			s := &rdService{name: p.next()}
 			p.expect("{")
-			for p.ok && p.peek() == "rpc" {
-				p.next()
+			for p.ok && (p.peek() == "rpc" || p.peek() == "option") {
+				if p.next() == "option" {
+					p.optionStatement(&s.opts)
+					continue
+				}
 				m := rdMethod{name: p.next()}
 				p.expect("(")
 				m.in = p.next()
@@ -234,6 +350,10 @@ func rdParse(text []byte) (*rdFile, bool) {
 				m.out = p.next()
 				p.expect(")")
 				p.expect("{")
+				for p.ok && p.peek() == "option" {
+					p.next()
+					p.optionStatement(&m.opts)
+				}
 				p.expect("}")
 				s.methods = append(s.methods, m)
 			}
